@@ -36,6 +36,7 @@ ALPHA = {
     "tags": ["", "-- vsg_off entity_004", "ENTITY tags IS", "-- vsg_on", "END ENTITY tags;", ""],
     "lists": ["", "entity lists is", "  port (", "    CLK_in : in std_logic;", "    data : out std_logic", "  );", "end entity lists;", ""],
     "fixtarget": ["", "ENTITY  ft IS", "END   ENTITY ft;", ""],
+    "opencmt": ["", "ENTITY oc IS", "END ENTITY oc;", "/* a delimited comment that is never closed", "   (the file ends inside it)"],
 }
 
 
@@ -297,6 +298,11 @@ def exec_sched(item):
 def exec_channel(item):
     r = explore.Result()
     lines = universe.materialise(item)
+    if item.get("ctrl"):
+        # a control / separator character inside a comment: both channels must still see the same lines
+        lines = list(lines)
+        k = min(2, len(lines) - 1)
+        lines.insert(k, "-- page" + item["ctrl"] + "break")
     d = drivers.scratch()
     p = os.path.join(d, "chan.vhd")
     text = "\n".join(lines) + "\n"
@@ -356,7 +362,7 @@ def main(tier):
     for L in (2, 3):
         for s in itertools.product(names, repeat=L):
             for f in (False, True):
-                if tier == "quick" and L == 3 and (f is False) and s[0] not in ("parsefail", "cfgerr", "lists", "fixable"):
+                if tier == "quick" and L == 3 and (f is False) and s[0] not in ("parsefail", "cfgerr", "lists", "fixable", "opencmt"):
                     continue
                 seqs.append({"id": f"seq/{'+'.join(s)}/{f}", "part": "seq", "seq": list(s), "fix": f})
     m1 = explore.run(seqs, execute, horizon=240.0, label=PROP + "seq", chunk=8)
@@ -371,14 +377,17 @@ def main(tier):
         sched.append({"id": "sched/5", "part": "sched", "files": ["fixable", "viol", "parsefail", "lists", "clean"], "fix": True, "jobs": [2, 3], "real": [2, 4, 16]})
     m2 = explore.run(sched, execute, horizon=600.0, label=PROP + "sched", chunk=1)
     chan = [dict(it, part="channel") for it in universe.zero_dev(corpus.small_slice() if tier == "quick" else corpus.seed_ids(("fix", "cls", "gen")), styles=(None,))]
+    for sid in [s for s in corpus.small_slice(max_lines=25) if s.startswith("fix/")][:: (8 if tier == "quick" else 1)]:
+        for ch in ("\x0c", "\x0b", "\x1c", "\x1d", "\x1e", "\x85", "\u2028", "\u2029", "\t"):
+            chan.append(dict(universe.mk(sid), part="channel", ctrl=ch, id=f"{sid}#ctrl{ord(ch):x}"))
     m3 = explore.run(chan, execute, horizon=60.0, label=PROP + "chan", chunk=8)
     return report.finish(
         PROP, tier, "model_checking", [m0, m1, m2, m3], t0,
         "(a) node = fingerprint of every module-level and class-level list/dict/set of every loaded vsg.* module, of module-level vsg instances and of the shared config / argument objects; edge = one real "
-        "apply_rules.apply_rules(args, config, (i, file)) for file in a 9-file alphabet (clean, violations, fixable, parse failure, configuration error via file_rules, pragmas, code tags, list-valued options, "
-        "fix target), with and without --fix: every edge must be a self-loop, and all sequences of length <= 3 are executed concretely with every file's (report, JUnit, JSON entry, exit contribution, fixed "
+        "apply_rules.apply_rules(args, config, (i, file)) for file in a 10-file alphabet (clean, violations, fixable, parse failure, configuration error via file_rules, pragmas, code tags, list-valued options, "
+        "fix target, file ending inside an unclosed delimited comment), with and without --fix: every edge must be a self-loop, and all sequences of length <= 3 are executed concretely with every file's (report, JUnit, JSON entry, exit contribution, fixed "
         "bytes) compared with its solo result; (b) main() with multiprocessing.Pool replaced by a controlled pool: every partition of the task list into <= p index-ordered groups (p in 2, 3), every order of "
-        "the files, each group a real forked worker; everything main() prints and writes must equal the one-job run; the real Pool runs free as conformance; (c) every seed by name and through --stdin; "
+        "the files, each group a real forked worker; everything main() prints and writes must equal the one-job run; the real Pool runs free as conformance; (c) every seed by name and through --stdin, also with a control / separator character (FF, VT, FS, GS, RS, NEL, LS, PS, TAB) inside a comment; "
         "non-trivial = histories / schedules / seeds with violations",
         ["worker <-> task assignment is the only scheduling freedom main() has (workers share nothing but distinct files); two workers fixing the same path is not modelled",
          "timestamps and host name in JUnit are normalised; scratch directory names are normalised"],
